@@ -202,3 +202,43 @@ Proof.
     fold j in F1, F7. split; [unfold fb_parsed; rewrite F1; reflexivity|]. rewrite F7. cbn [bD fb_v po]. f_equal.
     pose proof (Hlen i0) as E. cbv zeta in E. fold us lu i j in E. lia.
 Qed.
+
+(* bare URIs *)
+Definition gv_bare (n0 : byte) (name g : list byte) : gval := mkgval (n0 :: name) g (fun i0 => fB HdrContact i0 (nnat (length (n0 :: name)))).
+Lemma gv_bare_ok n0 name g : nchar0 n0 -> Forall nchar name -> gp g -> gv_ok (gv_bare n0 name g).
+Proof.
+  intros Hn0 Hname Hg. unfold gv_ok, gv_bare. cbn [gv_x gv_g gv_v].
+  split; [exact Hg|]. split; [discriminate|]. split; [|split].
+  - intros pre y i Hi. rewrite (run_parse_c pre _ i Hi).
+    rewrite (nameaddr_bare_comma HdrContact (rev pre) n0 name g y eq_refl Hn0 Hname Hg). rewrite rev_length, <- Hi. reflexivity.
+  - intros pre sp x tail i Hi Hsp Hx. rewrite (run_parse_c pre _ i Hi).
+    rewrite (nameaddr_bare_eol HdrContact (rev pre) n0 name sp x tail Hn0 Hname Hsp Hx). rewrite rev_length, <- Hi. reflexivity.
+  - intros i. split; reflexivity.
+Qed.
+Definition gvb_x (n0 : byte) (name g0 : list byte) (L : list pit) (t : pit) : list byte := headB n0 name g0 ++ its_bytes L ++ t_body t.
+Definition gvb_v (n0 : byte) (name g0 : list byte) (L : list pit) (t : pit) (i0 : N) : pfrom :=
+  let i := i0 + nnat (length (headB n0 name g0)) in let j := i + nnat (length (its_bytes L)) in
+  finW HdrContact (t_d j t) (t_apply true j t (its_state true i L (bB i0 (nnat (length (n0 :: name))) g0))).
+Definition gv_bare_params (n0 : byte) (name g0 : list byte) (L : list pit) (t : pit) : gval := mkgval (gvb_x n0 name g0 L t) (t_g4 t) (gvb_v n0 name g0 L t).
+Lemma gv_bare_params_ok n0 name g0 L t : nchar0 n0 -> Forall nchar name -> gp g0 -> Forall t_ok L -> t_ok t -> gv_ok (gv_bare_params n0 name g0 L t).
+Proof.
+  intros Hn0 Hname Hg HL Ht. unfold gv_ok, gv_bare_params. cbn [gv_x gv_g gv_v].
+  assert (Hg4 : gp (t_g4 t)) by (destruct Ht as (_ & _ & _ & H); exact H).
+  assert (Hlen : forall i0, let i := i0 + nnat (length (headB n0 name g0)) in let j := i + nnat (length (its_bytes L)) in
+            t_d j t = i0 + nnat (length (gvb_x n0 name g0 L t))).
+  { intros i0 i j. subst j i. unfold t_d, gvb_x. repeat (rewrite app_length; cbn [length]). unfold nnat. lia. }
+  split; [exact Hg4|]. split; [unfold gvb_x, headB; discriminate|]. split; [|split].
+  - intros pre y i Hi. rewrite (run_parse_c pre _ i Hi). unfold gvb_x. repeat (rewrite <- ?app_assoc).
+    pose proof (nameaddr_bare_params_comma HdrContact (rev pre) n0 name g0 L t y eq_refl Hn0 Hname Hg HL Ht) as T. cbv zeta in T.
+    rewrite T. rewrite rev_length, <- Hi. unfold gvb_v. cbv zeta.
+    f_equal. pose proof (Hlen i) as E. cbv zeta in E. rewrite E. unfold gvb_x. lia.
+  - intros pre sp x tail i Hi Hsp Hx. rewrite (run_parse_c pre _ i Hi). unfold gvb_x. repeat (rewrite <- ?app_assoc).
+    pose proof (nameaddr_bare_params_eol HdrContact (rev pre) n0 name g0 L t sp x tail Hn0 Hname Hg HL Ht Hsp Hx) as T. cbv zeta in T.
+    rewrite T. rewrite rev_length, <- Hi. unfold gvb_v. cbv zeta.
+    f_equal. pose proof (Hlen i) as E. cbv zeta in E. rewrite E. unfold gvb_x. lia.
+  - intros i0. unfold gvb_v. cbv zeta.
+    set (i := i0 + nnat (length (headB n0 name g0))). set (j := i + nnat (length (its_bytes L))).
+    destruct (gen_result_fields HdrContact true L t i (bB i0 (nnat (length (n0 :: name))) g0) (t_d j t) ltac:(subst i; unfold headB; cbn [length app]; unfold nnat; lia) eq_refl) as (F1 & _ & _ & _ & _ & _ & F7).
+    fold j in F1, F7. split; [unfold fb_parsed; rewrite F1; reflexivity|]. rewrite F7. cbn [bB fb_v po]. f_equal.
+    pose proof (Hlen i0) as E. cbv zeta in E. fold i j in E. lia.
+Qed.
